@@ -20,6 +20,7 @@ TermSet(name) ==
       [] name = "t22b" -> {Aff(<<<<1, 0>>, <<0, 1>>>>, <<0, 0>>), Aff(<<<<0, 1>>, <<1, 0>>>>, <<1, -2>>), Aff(<<<<2, 0>>, <<0, -1>>>>, <<0, -1>>)}
       [] name = "t22c" -> {Aff(<<<<1, 0>>, <<0, 1>>>>, <<0, 0>>), Aff(<<<<1, 0>>, <<0, 1>>>>, <<0, 1>>), Aff(<<<<1, 0>>, <<0, 2>>>>, <<0, 0>>)}   \* differ only in bias / one coefficient
       [] name = "t22s" -> {Aff(<<<<0, 1>>, <<1, 0>>>>, <<1, 0>>)}
+      [] name = "tp2s" -> PredSet("p2s") \cup {Aff(<<<<0, 1>>>>, <<0>>)}          \* terminals R^2 -> R^1 that coincide with predicates of p2s
       [] name = "t21" -> {Aff(<<<<1, 1>>>>, <<0>>), Aff(<<<<1, 0>>>>, <<-1>>)}
       [] name = "t12" -> {Aff(<<<<1>>, <<-1>>>>, <<0, 0>>), Aff(<<<<0>>, <<1>>>>, <<1, 1>>)}
       [] name = "t11" -> {Aff(<<<<1>>>>, <<0>>), Aff(<<<<-2>>>>, <<1>>), Aff(<<<<0>>>>, <<1>>)}
